@@ -21,7 +21,7 @@ gin = ginenv.import_gin()
 ID = 'C01'
 LEVEL = 'exploration'
 ISOLATE = True
-BUDGET = {'quick': (8, 200), 'thorough': (16, 4000)}
+BUDGET = {'quick': (16, 200), 'thorough': (16, 4000)}
 RULE = ('shape (0-3 positional, 0-3 defaulted, *args?, 0-2 kw-only, 0-2 kw-only defaulted, **kw?; '
         'function/class __init__/class __new__/method; configurable/register/external) x scope '
         'stack of 0-4 config_scope entries (name, a/b shorthand, list, None, "") x 0-12 bindings '
